@@ -46,7 +46,7 @@ def run(ctx) -> None:
     tasks, meta = [], []
 
     def add(v, delta, placement, malformed, file):
-        tasks.append({"file": file, "delta": delta, "placement": placement})
+        tasks.append({"file": file, "delta": delta, "placement": placement, "file_entries": bool(malformed)})
         meta.append({"recs": v["recs"], "delta": delta, "placement": placement, "malformed": malformed})
 
     for v in vecs:
@@ -84,7 +84,7 @@ def run(ctx) -> None:
             m = dict(m, recs=m["recs"] + [dict(r_, off=r_["off"] + 0x40000) for r_ in m["recs"]])
         recs.append({"id": str(len(kept)), "recs": m["recs"], "delta": m["delta"], "malformed": bool(m["malformed"]),
                      "base": {k2: o["base"][k2] for k2 in ("ok", "calls", "labels")},
-                     "with": {k2: o["with"][k2] for k2 in ("ok", "calls", "labels")}})
+                     "with": {k2: o["with"][k2] for k2 in ("ok", "calls", "labels")}, "fe": o["fe"]})
         kept.append(k)
         ctx.evaluations += 1
         ctx.nontrivial.add((str([(rc["off"], len(rc["data"]), rc["rle"]) for rc in m["recs"]]), m["delta"], m["placement"], m["malformed"]))
@@ -112,7 +112,7 @@ def replay(ctx, data) -> int:
     m = data["case"]
     rec = {"id": "replay", "recs": m["recs"], "delta": m["delta"], "malformed": bool(m["malformed"]),
            "base": {k2: o["base"][k2] for k2 in ("ok", "calls", "labels")},
-           "with": {k2: o["with"][k2] for k2 in ("ok", "calls", "labels")}}
+           "with": {k2: o["with"][k2] for k2 in ("ok", "calls", "labels")}, "fe": o["fe"]}
     print("re-observed with directive:", o["with"])
     rejects, _, _ = tlc.judge_traces("TraceC13", [rec], tag="c13.replay", nshards=1)
     print("TLC verdict:", rejects or "accepted")
